@@ -506,8 +506,8 @@ func (d *drv) nextSentinelNTP() []byte {
 
 func (d *drv) sentinelFor(listener int) []byte {
 	h := &pktSpec{dstIA: 0x0001ff0000000112, srcIA: 0x0001ff0000000111,
-		dstRaw: []byte{10, 9, 8, 7}, srcRaw: []byte{10, 1, 2, 3}, auth: -1,
-		udpSrc: 40123, udpDst: scionPort}
+		dstRaw: []byte{10, 9, 8, 7}, srcRaw: append([]byte(nil), d.hIP...), auth: -1,
+		udpSrc: 31002, udpDst: scionPort}
 	if listener == 2 {
 		d.seq++
 		h.scmp, h.scmpType = true, uint8(slayers.SCMPTypeEchoRequest)
@@ -533,7 +533,7 @@ func (d *drv) isSentinelReply(b []byte) bool {
 		pl := p.udp.Payload
 		return binary.BigEndian.Uint32(pl[24:]) == sentinelSecs && binary.BigEndian.Uint32(pl[28:]) == d.seq
 	}
-	if p.isSCMP && p.scmp.TypeCode.Type() == slayers.SCMPTypeEchoReply && len(p.scmp.Payload) == 12 {
+	if p.isSCMP && len(p.scmp.Payload) == 12 {
 		pl := p.scmp.Payload
 		return binary.BigEndian.Uint32(pl[4:]) == sentinelSecs && binary.BigEndian.Uint32(pl[8:]) == d.seq
 	}
@@ -564,12 +564,28 @@ func (d *drv) exchange(sender, listener int, pkt []byte) (reps []obs, nsent int)
 	}
 	buf := make([]byte, 65536)
 	deadline := time.Now().Add(readTimeout)
-	for {
-		c.SetReadDeadline(deadline)
+	// the sentinel's SCION source is the harness socket srcSock: an answer that
+	// goes there instead of to the previous hop ends the wait (reported as -1)
+	srcSock := nSenders + 4
+	misdirected := false
+	for !misdirected {
+		c.SetReadDeadline(time.Now().Add(200 * time.Millisecond))
 		n, _, err := c.ReadFromUDP(buf)
 		if err != nil {
-			d.lost = true
-			break
+			if sender != srcSock {
+				for _, b := range drain(d.socks[srcSock]) {
+					if d.isSentinelReply(b) {
+						misdirected = true
+					} else {
+						reps = append(reps, obs{srcSock, b})
+					}
+				}
+			}
+			if time.Now().After(deadline) {
+				d.lost = true
+				break
+			}
+			continue
 		}
 		b := append([]byte(nil), buf[:n]...)
 		if d.isSentinelReply(b) {
@@ -578,10 +594,15 @@ func (d *drv) exchange(sender, listener int, pkt []byte) (reps []obs, nsent int)
 		}
 		reps = append(reps, obs{sender, b})
 	}
+	if misdirected {
+		nsent = -1
+	}
 	for i, s := range d.socks {
 		for _, b := range drain(s) {
 			if d.isSentinelReply(b) {
-				nsent++
+				if nsent >= 0 {
+					nsent++
+				}
 			} else {
 				reps = append(reps, obs{i, b})
 			}
